@@ -168,11 +168,12 @@ func doGetHead(c *vlib.Ctx, sc scenario, expected peer.ID) callResult {
 		okTerm = coqCid(r.cid)
 	}
 	rp := sc.replay("gethead", expected)
-	rp.ClientOpt = curOpt
+	rp.ClientOpt, rp.AddrShape = curOpt, curAddrShape
+	_, usable := shapeAddrs(nil)
 	if curOpt != "" {
 		c.Count("gethead-option:" + curOpt)
 	}
-	if !sc.noCase {
+	if !sc.noCase && usable { // without a usable address no head query is made: outside the model
 		c.Case("gethead", fmt.Sprintf("(GetHeadCase %s %s %s)", optPeerTerm(expected), resp, obsTerm(r.kind, okTerm, 0)),
 			map[string]interface{}{"scenario": sc.name, "key_type": sc.keyType, "expected": peerStr(expected), "client_options": curOpt, "observed": r.kind, "replay": rp})
 	}
@@ -196,6 +197,10 @@ func doGetHead(c *vlib.Ctx, sc scenario, expected peer.ID) callResult {
 	}
 	// the property, both directions
 	want := acc && (expected == "" || psigner == expected)
+	if curAddrShape != "" {
+		who += ", address list " + curAddrShape
+		c.Count("gethead-addr-shape:" + curAddrShape)
+	}
 	switch {
 	case r.kind == "ok" && !acc:
 		c.Fail("gethead"+optTag()+":accepted-unverified:"+sc.name+":"+sc.keyType, "GetHead returned a CID for a response that carries no signature verifying under its own key over cid||topic ("+who+")", rp)
@@ -203,11 +208,11 @@ func doGetHead(c *vlib.Ctx, sc scenario, expected peer.ID) callResult {
 		c.Fail("gethead"+optTag()+":accepted-other-signer:"+sc.name+":"+sc.keyType, fmt.Sprintf("GetHead returned a CID signed by %s, %s", psigner, who), rp)
 	case r.kind == "ok" && !r.cid.Equals(pc):
 		c.Fail("gethead"+optTag()+":other-cid:"+sc.name+":"+sc.keyType, fmt.Sprintf("GetHead returned %s, the signed CID is %s", r.cid, pc), rp)
-	case r.kind != "ok" && want:
+	case r.kind != "ok" && want && usable:
 		c.Fail("gethead"+optTag()+":rejected-valid:"+sc.name+":"+sc.keyType, "GetHead rejected a head validly signed by the expected publisher: "+r.err+" ("+who+")", rp)
 	}
 	// the scenario's own expectation (cross-check of the oracle above)
-	if sc.signer != nil && expected == sc.signer.ID {
+	if sc.signer != nil && expected == sc.signer.ID && (usable || sc.expect != "accept") {
 		checkExpectation(c, sc, "gethead", r, rp)
 	}
 	return r
@@ -257,6 +262,19 @@ func doSub(c *vlib.Ctx, sc scenario, id peer.ID, addrIDs []peer.ID, latest0 cid.
 		ai.Addrs = append(ai.Addrs, srv.maddr.Encapsulate(p2p.Multiaddr()))
 		addrTerms = append(addrTerms, optPeerTerm(a))
 	}
+	usable := true
+	if curAddrShape != "" {
+		switch curAddrShape {
+		case "duplicate", "nil-middle":
+			addrTerms = append(addrTerms, addrTerms...) // the model sees the non-nil addresses
+		case "dead-first":
+			addrTerms = append([]string{"None"}, addrTerms...)
+		case "only-nil":
+			addrTerms = nil
+		}
+		ai.Addrs, usable = shapeAddrs(ai.Addrs)
+		c.Count("sub-addr-shape:" + curAddrShape)
+	}
 	// the publisher the caller asked to sync, from the property text: the ID given, else
 	// the first ID carried by an address
 	resolved := id
@@ -291,7 +309,7 @@ func doSub(c *vlib.Ctx, sc scenario, id peer.ID, addrIDs []peer.ID, latest0 cid.
 		ids = append(ids, peerStr(a))
 	}
 	rp := sc.replay("sub", id)
-	rp.AddrIDs = ids
+	rp.AddrIDs, rp.AddrShape = ids, curAddrShape
 	if latest0 != cid.Undef {
 		rp.Latest0 = latest0.String()
 	}
@@ -310,48 +328,48 @@ func doSub(c *vlib.Ctx, sc scenario, id peer.ID, addrIDs []peer.ID, latest0 cid.
 			"head_requests": r.heads, "block_requests_after_head": len(r.blocks), "latest_before": cidStr(latest0), "latest_after": cidStr(r.latest)})
 	}
 	if r.kind == "panic" {
-		c.Fail("sub:panic:"+sc.name, "SyncAdChain panicked: "+r.err, rp)
+		c.Fail("sub"+optTag()+":panic:"+sc.name, "SyncAdChain panicked: "+r.err, rp)
 		return r
 	}
 	if len(r.other) != 0 {
-		c.Fail("sub:unexpected-request:"+sc.name, fmt.Sprintf("requests other than head/blocks: %v", r.other), rp)
+		c.Fail("sub"+optTag()+":unexpected-request:"+sc.name, fmt.Sprintf("requests other than head/blocks: %v", r.other), rp)
 	}
 	accepted := acc && resolved != "" && psigner == resolved
 	if !accepted {
 		// a rejected head (or no publisher identity at all): error, no request after the
 		// head request, latest-sync untouched
 		if r.kind == "ok" {
-			sig := "sub:accepted-unverified:"
+			sig := "sub" + optTag() + ":accepted-unverified:"
 			if acc {
-				sig = "sub:accepted-other-signer:"
+				sig = "sub" + optTag() + ":accepted-other-signer:"
 			}
 			c.Fail(sig+sc.name+":"+sc.keyType, fmt.Sprintf("SyncAdChain succeeded on a head that must be rejected (signer %s, asked for %s)", psigner, peerStr(resolved)), rp)
 		}
 		if len(r.blocks) != 0 {
-			c.Fail("sub:requests-after-rejected-head:"+sc.name+":"+sc.keyType, fmt.Sprintf("%d block requests followed a rejected head", len(r.blocks)), rp)
+			c.Fail("sub"+optTag()+":requests-after-rejected-head:"+sc.name+":"+sc.keyType, fmt.Sprintf("%d block requests followed a rejected head", len(r.blocks)), rp)
 		}
 		if !r.latest.Equals(latest0) {
-			c.Fail("sub:latest-changed-after-rejected-head:"+sc.name+":"+sc.keyType, fmt.Sprintf("latest-sync went from %s to %s after a rejected head", cidStr(latest0), cidStr(r.latest)), rp)
+			c.Fail("sub"+optTag()+":latest-changed-after-rejected-head:"+sc.name+":"+sc.keyType, fmt.Sprintf("latest-sync went from %s to %s after a rejected head", cidStr(latest0), cidStr(r.latest)), rp)
 		}
 		if resolved == "" && r.heads != 0 {
-			c.Fail("sub:head-query-without-peer-id:"+sc.name, "a head query was made although no peer ID was given", rp)
+			c.Fail("sub"+optTag()+":head-query-without-peer-id:"+sc.name, "a head query was made although no peer ID was given", rp)
 		}
 	} else {
-		if r.heads != 1 {
-			c.Fail("sub:head-requests:"+sc.name, fmt.Sprintf("%d head requests", r.heads), rp)
+		if usable && r.heads != 1 {
+			c.Fail("sub"+optTag()+":head-requests:"+sc.name, fmt.Sprintf("%d head requests", r.heads), rp)
 		}
 		if r.kind == "ok" {
 			if !r.cid.Equals(pc) {
-				c.Fail("sub:other-cid:"+sc.name+":"+sc.keyType, fmt.Sprintf("SyncAdChain returned %s, the signed CID is %s", r.cid, pc), rp)
+				c.Fail("sub"+optTag()+":other-cid:"+sc.name+":"+sc.keyType, fmt.Sprintf("SyncAdChain returned %s, the signed CID is %s", r.cid, pc), rp)
 			}
 			if !r.latest.Equals(pc) {
-				c.Fail("sub:latest-not-head:"+sc.name+":"+sc.keyType, fmt.Sprintf("latest-sync is %s after syncing head %s", cidStr(r.latest), pc), rp)
+				c.Fail("sub"+optTag()+":latest-not-head:"+sc.name+":"+sc.keyType, fmt.Sprintf("latest-sync is %s after syncing head %s", cidStr(r.latest), pc), rp)
 			}
 		} else if !r.latest.Equals(latest0) {
-			c.Fail("sub:latest-changed-after-failed-sync:"+sc.name+":"+sc.keyType, "latest-sync changed although the sync failed", rp)
+			c.Fail("sub"+optTag()+":latest-changed-after-failed-sync:"+sc.name+":"+sc.keyType, "latest-sync changed although the sync failed", rp)
 		}
 		if inChain(pc) && r.kind != "ok" {
-			c.Fail("sub:rejected-valid:"+sc.name+":"+sc.keyType, "SyncAdChain failed on a head validly signed by the publisher asked for, whose blocks the publisher serves: "+r.err, rp)
+			c.Fail("sub"+optTag()+":rejected-valid:"+sc.name+":"+sc.keyType, "SyncAdChain failed on a head validly signed by the publisher asked for, whose blocks the publisher serves: "+r.err, rp)
 		}
 	}
 	if sc.signer != nil && resolved == sc.signer.ID && (sc.expect != "accept" || inChain(sc.wantCid)) {
@@ -445,8 +463,12 @@ func chainTerm() string {
 
 // optTag marks failure signatures of runs with non-default client options
 func optTag() string {
-	if curOpt == "" {
-		return ""
+	t := ""
+	if curOpt != "" {
+		t = "[" + curOpt + "]"
 	}
-	return "[" + curOpt + "]"
+	if curAddrShape != "" {
+		t += "{addrs=" + curAddrShape + "}"
+	}
+	return t
 }
